@@ -9,13 +9,16 @@ Local Open Scope N_scope.
 
 (* ---------- Z_p instance of the field operations (p = 2^61 - 1) ---------- *)
 Definition zp : N := 2305843009213693951.
-Definition zadd (a b : N) : N := (a + b) mod zp.
-Definition zmul (a b : N) : N := (a * b) mod zp.
-Definition zopp (a : N) : N := (zp - a mod zp) mod zp.
+(* reduction modulo the Mersenne prime 2^61-1 by folding (valid for arguments below 2^183) *)
+Definition zfold (x : N) : N := N.land x zp + N.shiftr x 61.
+Definition zred (x : N) : N := let y := zfold (zfold (zfold x)) in if zp <=? y then y - zp else y.
+Definition zadd (a b : N) : N := zred (a + b).
+Definition zmul (a b : N) : N := zred (a * b).
+Definition zopp (a : N) : N := zred (zp - zred a).
 Definition zsub (a b : N) : N := zadd a (zopp b).
 Fixpoint zpow_pos (a : N) (e : positive) : N :=
   match e with
-  | xH => a mod zp
+  | xH => zred a
   | xO e' => let t := zpow_pos a e' in zmul t t
   | xI e' => let t := zpow_pos a e' in zmul (zmul t t) a
   end.
@@ -23,20 +26,20 @@ Definition zinv (a : N) : N := match zp - 2 with Npos e => zpow_pos a e | N0 => 
 Definition zdiv (a b : N) : N := zmul a (zinv b).
 
 Definition zmix (s k : N) : N :=
-  let t := (s * 6364136223846793005 + k * 1442695040888963407 + 1013904223) mod zp in
-  (zmul (zmul t t) t + 3 * t + 7) mod zp.
+  let t := zred (s * 6364136223846793005 + k * 1442695040888963407 + 1013904223) in
+  zred (zmul t t + 3 * t + 7).
 (* generators: a function of key, count and index *)
-Definition zgen (w : N) (n i : nat) : N := zmix (zmix w (N.of_nat n + 11)) (N.of_nat i + 5).
+Definition zgen (w : N) (n i : nat) : N := zmix w (N.of_nat n * 1000003 + N.of_nat i * 7919 + 5).
 (* challenge: a function of the whole transcript and the nonce *)
 Definition zH (l : list N) (nonce : N) : N :=
-  zmix (fold_left (fun acc x => (acc * 1000003 + x + 1) mod zp) l 17) (nonce + 3).
+  zmix (fold_left (fun acc x => zred (acc * 1000003 + x + 1)) l 17) (nonce + 3).
 
 Definition zverify := verify N 0 1 zadd zmul zsub zopp N.eqb zH zgen.
 Definition zderive := derive N 0 1 zadd zmul zsub zopp zdiv N.eqb zH zgen.
 Definition zsign := sign N 0 1 zadd zmul zdiv zgen.
 
 (* injective embeddings of the harness's message / nonce / key ids *)
-Definition m_of (id : N) : N := (id * id * 31 + id * 7 + 3) mod zp.
+Definition m_of (id : N) : N := zred (id * id * 31 + id * 7 + 3).
 Definition nonce_of (id : N) : N := id + 1.
 Definition key_of (id : N) : N := zmix (id + 1) 99.
 
@@ -79,7 +82,7 @@ Definition check_case (c : case) : bool :=
   let hidden := (n - nrev)%nat in
   let msgs := map m_of (c_msgs c) in
   let x := key_of (c_key c) in
-  let seed := fold_left (fun acc m => (acc * 1000003 + m + 1) mod zp) msgs (c_nonce c + 1) in
+  let seed := fold_left (fun acc m => zred (acc * 1000003 + m + 1)) msgs (c_nonce c + 1) in
   let sg := zsign x msgs (zmix seed 1) (zmix seed 2) in
   let nonce := nonce_of (c_nonce c) in
   (* payload codec *)
